@@ -181,3 +181,38 @@ def run(ctx, rep):
                 verdict, info = rules.guarded_by_bool(g, [c.bb], tests, want=False) if tests else ("violated", "no comparison with 0.0")
                 rep.ob("C06.failure-equivalence", "folder %s: float division #%d is guarded by a zero test" % (op, i), verdict, str(info), c.span,
                        fn=g.path, key="C06.failure-equivalence|%s|fpzero#%d" % (op, i))
+    fold_width(F, rep)
+
+
+WIDTH_OF_KIND = {"Integer": "i32", "BigInt": "i128", "Byte": "u8", "Float": "f64"}
+
+
+def fold_width(F, rep):
+    """The folder keeps numbers as text: an operator implementation parses its operands, computes, and writes the result back with to_string()
+    under the kind it decided on.  The machine type of the value it writes must be the type of that kind (int = i32, bigint = i128, byte = u8,
+    float = f64): a `bigint` result computed in i32 wraps or fails where the interpreter, which computes bigints in i128, does not."""
+    import re as _re
+    n, bad = 0, []
+    for f in F.crates["compiler"].fns:
+        topp = _re.sub(r"::\{closure#\d+\}", "", f.path)
+        if not _re.search(r"<impl core::ops::\w+::\w+ for &?compiler::ast::number::Number>::\w+$", topp):
+            continue
+        for bi, si, d, rv, s in f.assigns():
+            if "agg" in rv and rv["agg"].get("adt", "").endswith("number::Number") and rv["ops"]:
+                kind = rv["agg"]["v"]
+                l = op_local(rv["ops"][0])
+                oc = rules.origin_calls(f, l) if l is not None else []
+                tys = {(c.t["func"].get("ga") or ["?"])[0] for c in oc if c.callee().endswith("ToString>::to_string") or c.callee().endswith("::to_string")}
+                if not tys:
+                    continue
+                n += 1
+                want = WIDTH_OF_KIND.get(kind)
+                if tys != {want}:
+                    bad.append((mir.short(topp), kind, sorted(tys), s.get("sp")))
+    for fn_, kind, tys, sp in bad:
+        rep.ob("C06.fold-width", "%s writes a %s result computed as %s" % (fn_, kind.lower(), "/".join(tys)), "violated",
+               "the result is labelled %s (%s at run time) but was computed in %s: it wraps / fails at that width while the interpreter does not" % (
+                   kind, WIDTH_OF_KIND.get(kind), "/".join(tys)), sp, key="C06.fold-width|%s|%s|%s" % (fn_, kind, "/".join(tys)))
+    rep.ob("C06.fold-width", "every result the folder's operator implementations write was computed at the width of its kind (%d result sites)" % n,
+           "ok" if not bad else "violated", "", None, key="C06.fold-width|summary")
+    rep.floor("C06.fold-width result sites of the folder's operators", n, 150)
